@@ -23,6 +23,12 @@ CHECKS = {
         note="Trusted: SimMDP tables; successor of a done step matched existentially; built-in environments are covered by the rollout scenario (C02) only for space membership.",
         ref="5 (C01)",
     ),
+    "C11": dict(
+        oracle="bit-identity of trained leaves across repeats, keys, fresh interpreters (PYTHONHASHSEED varied), observer sets and host-fault schedules",
+        text="The simulator's own determinism obligation turned on lerax: the real learn() of all five algorithms is repeated in-process and in fresh interpreters, with every observer set (incl. video through a simulated executor whose interleaving the seed decides, injected back-end failures, simulated clock) and compared bit for bit with the observer-free run; the input policy must be untouched and another key must change the result. Exploration over configurations and fault schedules.",
+        note="Budgets <= 4 iterations, <= 3 envs; XLA's scheduling of host callbacks is outside the simulator's control.",
+        ref="5 (C11)",
+    ),
     "C12": dict(
         oracle="non-interference under node-perturbation faults (bit-identical other nodes), vmapped-vs-single collection equality, eager/vmap/jit mode equality",
         text="Fault injection on one parallel environment node of the real vectorised on-/off-policy iteration with bit-for-bit comparison of all other nodes; the vmapped collect_rollout call compared with N single-environment calls from the same keys and start states; the same step executed eagerly, vmapped and jitted. Exploration.",
